@@ -436,6 +436,20 @@ PathsTo(H, from, target, depth) ==
         \cup { {<<ToString(i-1)>> \o p : p \in PathsTo(H, H[from].a[i].id, target, depth-1)} :
                     i \in {x \in 1..Len(H[from].a) : H[from].a[x].k = "sub"} }))
 
+\* sub-configs reachable from id (by dotted access path) whose recorded parent is NOT the node that holds them:
+\* Parent() "is the node that actually contains it" (C15), and a copy made by Merge belongs to the destination (C10)
+RECURSIVE BadUp(_,_,_,_)
+BadUp(H, id, pre, depth) ==
+  IF depth = 0 THEN {}
+  ELSE UNION ({ LET x == H[id].d[key].id
+                    p == IF pre = "" THEN key ELSE pre \o "." \o key IN
+                (IF H[x].par # id THEN {p} ELSE {}) \cup BadUp(H, x, p, depth - 1) :
+                   key \in {y \in DOMAIN H[id].d : H[id].d[y].k = "sub"} }
+         \cup { LET x == H[id].a[i].id
+                    p == IF pre = "" THEN ToString(i - 1) ELSE pre \o "." \o ToString(i - 1) IN
+                (IF H[x].par # id THEN {p} ELSE {}) \cup BadUp(H, x, p, depth - 1) :
+                   i \in {y \in 1..Len(H[id].a) : H[id].a[y].k = "sub"} })
+
 (* ---- operations and the transition function ------------------------------------
    st = [H, hs]; Apply returns [st, res]                                           *)
 ResOfErr(e) == IF e = "none" THEN "ok" ELSE IF e = "panic" THEN "panic" ELSE "err:" \o e
@@ -469,7 +483,7 @@ Apply(D, st, op) ==
          ELSE [st |-> [H |-> MergeFrag(D, H, hs, op.h, op.fr, op.pol), hs |-> hs], res |-> "ok"]
 
 (* projection of a state.  Components are selected by the property under check. *)
-AllComps == {"obs", "path", "kind", "flat", "at", "sweep", "count", "cmp"}
+AllComps == {"obs", "path", "kind", "flat", "at", "sweep", "count", "cmp", "up"}
 HandleProj(D, H, hs, i, addrs, comps) ==
   LET id == hs[i]
       on(c, v, dflt) == IF c \in comps THEN v ELSE dflt IN
@@ -480,6 +494,7 @@ HandleProj(D, H, hs, i, addrs, comps) ==
     isarr  |-> IF "kind" \in comps THEN H[id].am ELSE FALSE,
     flat   |-> IF "flat" \in comps THEN FlattenedKeys(D, H, id) ELSE {},
     at     |-> IF "at" \in comps THEN [j \in 1..Len(hs) |-> PathsTo(H, id, hs[j], 4)] ELSE <<>>,
+    up     |-> IF "up" \in comps THEN BadUp(H, id, "", 4) ELSE {},
     sweep  |-> IF "sweep" \notin comps THEN <<>> ELSE
                LET full == [x \in DOMAIN addrs |->
                               LET fs == PathOf(addrs[x].name, addrs[x].idx)
